@@ -154,6 +154,8 @@ def run(ctx):
 
     # ------------------------------------------------------------------ R16.3
     r = ctx.rule("R16.3", "getters: name()/tag_name() -> ASCII-lower-cased decoding, *_preserve_case -> exact decoding, value() -> raw decoding; the namespace reported for a start tag is the one it was processed in (read before deferred tree-builder feedback can enter an integration point); void list", "E-MIR + E-AST", floor=6)
+    from .c04 import clause_stack_directive
+    clause_stack_directive(r, idx)
     want = {
         "StartTag::name": "as_lowercase_string", "StartTag::name_preserve_case": "as_string",
         "EndTag::name": "as_lowercase_string", "EndTag::name_preserve_case": "as_string",
@@ -190,6 +192,11 @@ def run(ctx):
     look = sorted(set(f.key.split("::{")[0] for f, bi, t in sites if LOOKUP.match(f.key)))
     for k in look:
         r.violate(k + "|byte-fold", f"{k} compares attribute names with byte-wise ASCII folding of bytes in the document encoding: under SHIFT_JIS/Big5/GBK a trail byte in A-Z is 'lower-cased', so an attribute that is present is not found (and the debug assertion of eq_case_insensitive fires)", None)
+
+    # ------------------------------------------------------------------ R16.5 (shared with C13 R13.4)
+    # getters return the source text decoded in the document encoding: no BOM sniffing on names / values
+    from .c13 import rule_no_bom_sniffing
+    rule_no_bom_sniffing(ctx, mir, rid="R16.5")
 
     ctx.not_decided += ["exact range arithmetic of finish_attr_value (closing-quote offsets) at run time", "decoding of values (encoding_rs)"]
     return ("Typestate of the attribute-building actions over every path of the %d-state automaton, the lookup/edit discipline of Attributes, "
